@@ -1,4 +1,6 @@
--- stub: component `ser` not built yet
+import Driver.Ser
+open Driver
+
 def main : IO UInt32 := do
-  IO.eprintln "driver-ser: not implemented"
-  return 2
+  runComponent Ser.init Ser.step
+  return 0
